@@ -53,4 +53,9 @@ Check (C08_records_iterator : forall msg nq an ns ar qs rs e1 e2, parsed msg nq 
   forall h l, lenN rs = an + ns + ar ->
   h_qd h <= 65535 -> h_an h = an -> h_ns h = ns -> h_ar h = ar -> lenN qs = nq ->
   iter_items msg nq an ns ar 0 rs = Some l -> iter_records msg h e1 = Ok (l, None)).
-Print Assumptions C08_name_types_agree. Print Assumptions C08_read_implies_skip. Print Assumptions C08_random_access_view. Print Assumptions C08_header_flavours_agree. Print Assumptions C08_iterator_item_is_reader_item. Print Assumptions C08_iterator_skip_is_reader_skip. Print Assumptions C08_nameref_eq_is_decoded_eq. Print Assumptions C08_label_iteration_is_expansion. Print Assumptions C08_questions_iterator. Print Assumptions C08_iterator_new. Print Assumptions C08_records_iterator.
+Check (C08_records_iterator_general : forall msg nq an ns ar qs rs e1 e2, parsed msg nq an ns ar qs rs e1 e2 ->
+  forall h, lenN rs = an + ns + ar ->
+  h_qd h <= 65535 -> h_an h = an -> h_ns h = ns -> h_ar h = ar -> lenN qs = nq ->
+  exists stop, iter_records msg h e1 = Ok (fst (iter_walk msg nq an ns ar 0 rs), stop) /\
+               (snd (iter_walk msg nq an ns ar 0 rs) = true <-> stop = None)).
+Print Assumptions C08_name_types_agree. Print Assumptions C08_read_implies_skip. Print Assumptions C08_random_access_view. Print Assumptions C08_header_flavours_agree. Print Assumptions C08_iterator_item_is_reader_item. Print Assumptions C08_iterator_skip_is_reader_skip. Print Assumptions C08_nameref_eq_is_decoded_eq. Print Assumptions C08_label_iteration_is_expansion. Print Assumptions C08_questions_iterator. Print Assumptions C08_iterator_new. Print Assumptions C08_records_iterator. Print Assumptions C08_records_iterator_general.
